@@ -16,6 +16,16 @@ CHECKS = {
         text="Small-scope exhaustive exploration of type shapes with an uninterpreted (term-building) operand type: the result of every derived operator call is compared structurally with op(lhs.i, rhs.i) for every field, so operand swaps, field swaps, wrong methods and wrong error kinds are all visible. Parametricity lifts the single valuation to all operand values.",
         note="Trusted: parametricity of expansions in operand values (they only call trait methods); rustc. Bounds: 1..3 fields (4 thorough), enums of <=2 (3 thorough) variants over {unit,tuple1,tuple2,named2(,named1,tuple3)}.",
         design_ref="DESIGN.md §3 C10", engine="compile"),
+    "C11": dict(
+        technique="bounded exhaustive enumeration of enums (variant-kind sequences x ref/ignore/field-ignore/raw-name configurations) compiled with the real proc-macro; every (value, accessor) pair executed and compared with a table model; addresses compared for reference forms; negative method/impl resolution checks for ignored variants",
+        text="Small-scope exhaustive exploration: for every enum in the bounded space every accessor is called on a value of every variant; results, panics (caught), error payloads and addresses are compared with the table model derived from the documented rules.",
+        note="Trusted: rustc; the table model (<60 lines) whose every prediction is executed. Bounds: <=2 variants (3 thorough) over 7 (8) variant kinds, plus selected 3/4-variant enums; variant names (Upper lower+){1,3} and three raw identifiers. TryInto is not derived for generic enums (coherence).",
+        design_ref="DESIGN.md §3 C11", engine="compile"),
+    "C13": dict(
+        technique="bounded exhaustive enumeration: all subsets (size<=2 quick, <=4 thorough) of a pool of case-colliding / raw-identifier variant names; for each enum ALL strings up to length 3 (4) over the names' letters in both cases plus separators are parsed and compared with a reference implementation of the documented rule; newtypes over 9 FromStr types x 4 shapes against the field type's own parse on ~400 strings",
+        text="Exhaustive short-string exploration per generated enum against an executable reference of the documented matching rule; differential check of newtypes against the inner type's FromStr including the error value.",
+        note="Trusted: rustc, std's FromStr impls, the 8-line reference rule. Unicode case folding beyond str::to_lowercase is not explored.",
+        design_ref="DESIGN.md §3 C13", engine="compile"),
 }
 
 PENDING = ["C01", "C02", "C03", "C04", "C05", "C06", "C07", "C08", "C09", "C10", "C11", "C13", "C14", "C15", "C16",
